@@ -113,6 +113,20 @@ def oracle(st, models, info):
                 viol.append({"key": "HARNESS:reference-ratio-inconsistent", "case": case,
                              "what": f"reference ratio {ex[k][0]} differs from the direct determinant ratio {direct}"})
                 return viol
+    # isolation: another live Models object of the same shape (different scale) builds its own system in between;
+    # the ratios of this object must not change by a single bit
+    if cands:
+        y = np.array(cands[len(cands) // 2], float)
+        with np.errstate(all="ignore"):
+            before = np.asarray(models.determinants(y), float)
+            decoy = _decoy(n, npt)
+            decoy.determinants(decoy.interpolation.point(0) + 0.03125)
+            after = np.asarray(models.determinants(y), float)
+        if not np.array_equal(before, after, equal_nan=True):
+            viol.append({"key": "ratio-depends-on-other-instance", "case": dict(case, y=y.tolist()),
+                         "what": "determinants(y) changed after another Models object of the same shape built its "
+                                 f"own interpolation system: {before.tolist()} -> {after.tolist()}"})
+            return viol
     st["flags"] = list(st.get("flags", [])) + ["ratios_checked"] * 0
     st["n_checked"] = checked
     st["worst"] = worst
@@ -121,6 +135,21 @@ def oracle(st, models, info):
 
 
 oracle.keeps_object = True
+
+
+_DECOYS = {}
+
+
+def _decoy(n, npt):
+    if (n, npt) not in _DECOYS:
+        m, _ = e2models.make_models(n, npt)
+        # shrink the decoy's set so that its scaling differs from every explored set
+        for k in range(1, npt):
+            x = m.interpolation.point(k) * 0.125
+            m.update_interpolation(k, x, float(e2models.f_obj(x)), np.array([e2models.f_obj(x)]),
+                                   np.array([e2models.f_eq(x)]))
+        _DECOYS[(n, npt)] = m
+    return _DECOYS[(n, npt)]
 
 
 def run_case(case):
